@@ -20,6 +20,7 @@ def check(chk):
     from . import c05
     from . import shared, c04
     shared.number_rules(chk, m, 'R3.7')
+    shared.bracket_rules(chk, m, 'R3.11')
     shared.sign_rules(chk, m, 'R3.8')
     # \ifdefined / \ifcsname / \newif look names up through the chain of frames (shared with C04)
     c04.chain_rules(chk, m, 'R3.9')
